@@ -189,3 +189,336 @@ CLASSGEN = {
 }
 
 ORACLES = {}
+
+# =================================================================================== correspondence streams
+def _decode_side(lines, extra_ops=("obs", "pack", "obs")):
+    """every byte string the implementation produced, decoded into a fresh object and re-encoded"""
+    out = []
+    for l in lines:
+        a = run_line_impl(l)
+        cls = l.split()[1]
+        for p in a.split("|"):
+            if p.startswith("ok:x"):
+                out.append(gen.H(cls, ["unpack " + p[3:]] + list(extra_ops)))
+    return out
+
+def ext_lines(ctx):
+    rng = ctx.rng
+    lines = []
+    for subset in range(8):
+        lines.append(gen.H("MPEGAdaptionExtension", gen.sets(ext_fields(rng, subset)) + ["pack", "obs"]))
+    for k, n in EXT_SIZES:                                  # wrong sizes: bare Exception
+        for m in (1, n - 1, n + 1, 9):
+            f = ext_fields(rng, rng.randrange(8))
+            f[k] = hexb(rng.bytes_(m))
+            lines.append(gen.H("MPEGAdaptionExtension", gen.sets(f) + ["pack", "obs"]))
+    for subset in range(8):                                 # stale flags are overwritten by pack
+        f = ext_fields(rng, subset)
+        for fl in ("ltw_flag", "piecewise_rate_flag", "seamless_splice_flag"):
+            f[fl] = B(rng.random() < 0.5)
+        lines.append(gen.H("MPEGAdaptionExtension", gen.sets(f) + ["obs", "pack", "obs", "pack", "obs"]))
+    # decode: every flag combination x declared length 0..14 x buffer lengths around it
+    for flags in range(8):
+        for ln in (0, 1, 2, 3, 4, 5, 7, 9, 10, 12, 13, 200):
+            body = rng.bytes_(12)
+            b = bytes([ln, 0x1F | (flags << 5)]) + body
+            for cut in (len(b), ln, max(0, ln - 1), ln + 1, 1, 2):
+                lines.append(gen.H("MPEGAdaptionExtension", ["unpack " + hexb(b[:cut]), "obs"]))
+    return lines
+
+def af_lines(ctx):
+    rng = ctx.rng
+    lines = []
+    # every subset of {PCR, OPCR, splice, private data, extension} x stuffing
+    for subset in range(32):
+        for stuffing in (0, 1, 2, 17, ctx.rng.randrange(3, 120)):
+            f, _ = af_fields(rng, subset, stuffing=stuffing)
+            lines.append(gen.H("MPEGAdaption", gen.sets(f) + ["pack", "obs", "pack", "obs"]))
+    for ext_subset in range(8):
+        f, _ = af_fields(rng, 16 | rng.randrange(16), ext_subset=ext_subset)
+        lines.append(gen.H("MPEGAdaption", gen.sets(f) + ["pack", "obs"]))
+    for pl in (1, 2, 3, 100, 254, 255, 256, 300):           # private data 1..255, then struct.error
+        f, _ = af_fields(rng, 8 | rng.randrange(8), private_len=pl)
+        lines.append(gen.H("MPEGAdaption", gen.sets(f) + ["pack", "obs"]))
+    for _ in range(ctx.scale(40, 2000)):                    # flags that do not match the parts (never cleared by pack)
+        f, _ = af_fields(rng, consistent_flags=False, stuffing=rng.choice([0, 0, 4]))
+        lines.append(gen.H("MPEGAdaption", gen.sets(f) + ["pack", "obs"]))
+    for n in (1, 2, 5, 6, 7, 12):                           # pcr must be 0 or 6 bytes; opcr may be anything
+        f, _ = af_fields(rng, 0)
+        f["pcr"] = hexb(rng.bytes_(n))
+        lines.append(gen.H("MPEGAdaption", gen.sets(f) + ["pack", "obs"]))
+        f, _ = af_fields(rng, rng.randrange(32))
+        f["opcr"] = hexb(rng.bytes_(n))
+        lines.append(gen.H("MPEGAdaption", gen.sets(f) + ["pack", "obs"]))
+    for sc in (0, 1, 255, 256, 1000):
+        f, _ = af_fields(rng, rng.randrange(32))
+        f["splice_countdown"] = str(sc)
+        lines.append(gen.H("MPEGAdaption", gen.sets(f) + ["pack", "obs"]))
+    for ln in (0, 1, 183, 255, 256, 70000):
+        f, _ = af_fields(rng, rng.randrange(32))
+        f["length"] = str(ln)
+        lines.append(gen.H("MPEGAdaption", gen.sets(f) + ["pack", "obs"]))
+    f, _ = af_fields(rng, 16)                               # extension with a part of the wrong size
+    f["adaption_extension"] = "MPEGAdaptionExtension{ltw=x01}"
+    lines.append(gen.H("MPEGAdaption", gen.sets(f) + ["pack", "obs"]))
+    # decode: every flags byte with buffers of every length 0..40 (truncation inside each optional part)
+    for flags in list(range(0, 32)) + [rng.randrange(256) for _ in range(ctx.scale(16, 224))]:
+        body = bytes([rng.randrange(0, 60), flags & 0xFF]) + rng.bytes_(6 + 6 + 1) + bytes([rng.choice([0, 1, 3, 9, 200])]) + \
+               rng.bytes_(3) + bytes([rng.choice([0, 2, 4, 7, 12, 30]), rng.randrange(256)]) + rng.bytes_(14)
+        for cut in sorted(set([len(body)] + [rng.randrange(0, len(body)) for _ in range(ctx.scale(4, 30))] + [0, 1, 2, 3])):
+            lines.append(gen.H("MPEGAdaption", ["unpack " + hexb(body[:cut]), "obs"]))
+    return lines
+
+def pkt_lines(ctx):
+    rng = ctx.rng
+    lines = []
+    widths = {"sync": 8, "pid": 13, "transport_priority": 1, "tsc": 2, "adaption_ctrl": 2, "continuitycounter": 4}
+    for k, b in widths.items():                             # each header field over its boundaries (and beyond)
+        for v in (0, 1, (1 << b) - 1, 1 << (b - 1), 1 << b, 0x47, 255, 256, 65535, 65536):
+            f = hdr_fields(rng)
+            f["adaption_ctrl"] = "1"
+            f[k] = str(v)
+            f["payload"] = hexb(rng.bytes_(rng.choice([0, 5, 184])))
+            lines.append(gen.H("MPEGPacket", gen.sets(f) + ["pack", "obs"]))
+    for tei in (True, False):
+        for pusi in (True, False):
+            f = hdr_fields(rng); f["tei"] = B(tei); f["pusi"] = B(pusi); f["adaption_ctrl"] = "1"
+            lines.append(gen.H("MPEGPacket", gen.sets(f) + ["pack", "obs"]))
+    for afc in range(4):                                    # every adaptation-control mode x adaption_field None / present
+        for n in (0, 1, 100, 182, 183, 184, 185, 200):      # under-full, exactly full, over-full (longer packet)
+            for with_af in (False, True):
+                f = hdr_fields(rng)
+                f["adaption_ctrl"] = str(afc)
+                f["payload"] = hexb(rng.bytes_(n))
+                if with_af:
+                    f["adaption_field"] = obj("MPEGAdaption", af_fields(rng, stuffing=rng.choice([0, 3]))[0])
+                lines.append(gen.H("MPEGPacket", gen.sets(f) + ["pack", "obs"]))
+                lines.append(gen.H("MPEGPacket", gen.sets(f) + ["pack True", "obs"]))
+    for subset in range(32):                                # every optional-part combination inside a packet
+        for stuffing in (0, rng.randrange(1, 100)):
+            af, ln = af_fields(rng, subset, stuffing=stuffing)
+            f = hdr_fields(rng)
+            f["adaption_ctrl"] = str(rng.choice([2, 3, 3]))
+            f["adaption_field"] = obj("MPEGAdaption", af)
+            f["payload"] = hexb(rng.bytes_(rng.choice([0, max(0, 183 - ln), max(0, 183 - ln - 7)])))
+            lines.append(gen.H("MPEGPacket", gen.sets(f) + ["pack", "obs"]))
+    for _ in range(ctx.scale(60, 3000)):                    # exactly filled packets
+        lines.append(gen.H("MPEGPacket", gen.sets(pkt_exact(rng)[0]) + ["pack", "obs"]))
+    for ln in range(0, 190, ctx.scale(7, 1)):               # adaptation-field length byte 0..189 with AFC 3 and 2
+        for afc in (3, 2):
+            b = bytes([0x47, rng.randrange(256), rng.randrange(256), (afc << 4) | rng.randrange(16), ln, rng.randrange(256)]) + rng.bytes_(182)
+            lines.append(gen.H("MPEGPacket", ["unpack " + hexb(b), "obs", "pack", "obs"]))
+            lines.append(gen.H("MPEGPacket", ["unpack " + hexb(b[:rng.randrange(4, 188)]), "obs"]))
+    for sync in (0x00, 0x46, 0x48, 0xB8, 0xFF):
+        lines.append(gen.H("MPEGPacket", ["unpack " + hexb(bytes([sync]) + rng.bytes_(187)), "obs"]))
+    for n in range(0, 8):
+        lines.append(gen.H("MPEGPacket", ["unpack " + hexb((b"\x47\x40\x11\x30" + rng.bytes_(8))[:n]), "obs"]))
+    return lines
+
+def ts_lines(ctx):
+    rng = ctx.rng
+    lines = []
+    for n in range(0, 6):
+        pk = [pkt_exact(rng)[0] for _ in range(n)]
+        lines.append(gen.H("MPEGTS", ["set blocks [" + ";".join(obj("MPEGPacket", p) for p in pk) + "]", "pack", "obs"]))
+    base = _decode_side(lines, extra_ops=())
+    for l in list(base):                                    # N x 188, N x 188 + r, a bad sync byte in packet k
+        b = bytes.fromhex((l.split("unpack x")[1].split("|")[0].split() or [""])[0])
+        lines.append(gen.H("MPEGTS", ["unpack " + hexb(b), "obs", "pack", "obs"]))
+        for r in (1, 3, 4, 5, 100, 187):
+            lines.append(gen.H("MPEGTS", ["unpack " + hexb(b + b"\x47" + rng.bytes_(r - 1)), "obs"]))
+        for k in range(len(b) // 188):
+            m = bytearray(b); m[k * 188] = 0x48
+            lines.append(gen.H("MPEGTS", ["unpack " + hexb(bytes(m)), "obs"]))
+    for ops in (["pack", "obs"], ["unpack x", "obs", "pack"]):
+        lines.append(gen.H("MPEGTS", ops))
+    over = hdr_fields(rng); over["adaption_ctrl"] = "1"; over["payload"] = hexb(rng.bytes_(190))
+    lines.append(gen.H("MPEGTS", ["set blocks [" + obj("MPEGPacket", over) + "]", "pack", "obs"]))
+    return lines
+
+def pmt_lines(ctx):
+    rng = ctx.rng
+    lines = []
+    for nd in range(0, 4):
+        for ns in range(0, 5):
+            lines.append(gen.H("MPEGPacketPMT", gen.sets(pmt_valid(rng, nd, ns)) + ["pack", "obs"]))
+    for k, b in PMT_OWN + [("pid", 13)]:                    # own header fields over their boundaries and beyond
+        for v in (0, 1, (1 << b) - 1, 1 << (b - 1), 1 << b):
+            f = pmt_valid(rng, 1, 1)
+            f[k] = str(v)
+            lines.append(gen.H("MPEGPacketPMT", gen.sets(f) + ["pack", "obs"]))
+    f = pmt_valid(rng, 0, 0)                                # element-level failures
+    f["descriptor_tags"] = "[DescriptorTag{tag=None,data=x01}]"
+    lines.append(gen.H("MPEGPacketPMT", gen.sets(f) + ["pack", "obs"]))
+    f["descriptor_tags"] = "[DescriptorTag{tag=256,data=x}]"
+    lines.append(gen.H("MPEGPacketPMT", gen.sets(f) + ["pack", "obs"]))
+    f["descriptor_tags"] = "[DescriptorTag{tag=5,data=%s}]" % hexb(rng.bytes_(256))
+    lines.append(gen.H("MPEGPacketPMT", gen.sets(f) + ["pack", "obs"]))
+    f["descriptor_tags"] = "[]"
+    f["streams"] = "[PMTStream{streamtype=256,elementary_pid=1,elementary_stream_descriptors=x}]"
+    lines.append(gen.H("MPEGPacketPMT", gen.sets(f) + ["pack", "obs"]))
+    f["streams"] = "[PMTStream{streamtype=2,elementary_pid=8192,elementary_stream_descriptors=x}]"
+    lines.append(gen.H("MPEGPacketPMT", gen.sets(f) + ["pack", "obs"]))
+    f = pmt_valid(rng, 0, 0); f["adaption_ctrl"] = "1"     # a section longer than the packet
+    f["streams"] = "[" + ";".join(obj("PMTStream", {"streamtype": "1", "elementary_pid": "2",
+                    "elementary_stream_descriptors": hexb(rng.bytes_(40))}) for _ in range(5)) + "]"
+    lines.append(gen.H("MPEGPacketPMT", gen.sets(f) + ["pack", "obs"]))
+    for afc in (0, 2):                                      # adaptation control without payload: own decoder fails
+        f = pmt_valid(rng, 1, 1); f["adaption_ctrl"] = str(afc)
+        lines.append(gen.H("MPEGPacketPMT", gen.sets(f) + ["pack", "obs"]))
+    for nm, fn in (("DescriptorTag", desc_fields), ("PMTStream", stream_fields)):
+        for _ in range(ctx.scale(10, 200)):
+            lines.append(gen.H(nm, gen.sets(fn(rng)) + ["pack", "obs"]))
+    return lines
+
+def pmt_mutants(rng, b, thorough=False):
+    """a valid PMT packet with the fields that steer the parse forced to other values, truncated sections,
+    a pointer field, and corrupted CRC-protected bytes"""
+    out = []
+    start = 4
+    if (b[3] >> 4) & 3 == 3:
+        start = 5 + b[4]
+    if start + 13 > len(b):
+        return out
+    sec = start + 1
+    slen = ((b[sec + 1] & 0xF) << 8) | b[sec + 2]
+    pil = ((b[sec + 10] & 0xF) << 8) | b[sec + 11]
+    def put(m, off, val, size):
+        return m[:off] + val.to_bytes(size, "big") + m[off + size:]
+    for v in (0, 1, 2, 3, slen - 5, slen - 1, slen + 1, slen + 5, 170, 183, 0xFFF):
+        if 0 <= v <= 0xFFF:
+            out.append(put(b, sec + 1, (b[sec + 1] & 0xF0) << 8 | v, 2))
+    for v in (0, 1, 2, 3, pil - 1, pil + 1, pil + 2, slen, 0xFFF):
+        if 0 <= v <= 0xFFF:
+            out.append(put(b, sec + 10, (b[sec + 10] & 0xF0) << 8 | v, 2))
+    for v in (1, 2, 5, 50, 170, 255):                       # pointer field
+        out.append(put(b, start, v, 1))
+        out.append(b[:start] + bytes([v]) + b"\xff" * v + b[start + 1:188 - v] if 188 - v > start + 1 else b)
+    end = sec + 3 + slen
+    positions = range(sec, min(end, len(b))) if thorough else sorted(set([sec, sec + 3, sec + 7, sec + 12, end - 5, end - 4, end - 1] +
+                                                                            [rng.randrange(sec, max(sec + 1, min(end, len(b)))) for _ in range(6)]))
+    for i in positions:
+        if 0 <= i < len(b):
+            for bit in ((0, 7) if not thorough else range(8)):
+                m = bytearray(b); m[i] ^= 1 << bit
+                out.append(bytes(m))
+    for cut in (start, start + 1, start + 12, start + 13, end - 4, end - 1, end):
+        out.append(b[:max(0, min(cut, len(b)))])
+    return out
+
+def _packed(cls, f, ops=("pack",)):
+    a = run_line_impl(gen.H(cls, gen.sets(f) + list(ops)))
+    r = a.split("|")[-1]
+    return bytes.fromhex(r[4:]) if r.startswith("ok:x") else None
+
+def pmt_decode_lines(ctx):
+    rng = ctx.rng
+    lines = []
+    for _ in range(ctx.scale(8, 100)):
+        b = _packed("MPEGPacketPMT", pmt_valid(rng))
+        if b is None:
+            continue
+        lines.append(gen.H("MPEGPacketPMT", ["unpack " + hexb(b), "obs", "pack", "obs"]))
+        for m in pmt_mutants(rng, b, thorough=(ctx.tier == "thorough")):
+            lines.append(gen.H("MPEGPacketPMT", ["unpack " + hexb(m), "obs"]))
+    return lines
+
+K2_WITNESS = {"sync": "71", "adaption_ctrl": "1", "streamid": "224", "pesdata": hexb(bytes([0x80]) + bytes(177))}
+
+def pes_lines(ctx):
+    rng = ctx.rng
+    lines = []
+    for header in (False, True):
+        for fill in (True, False):
+            for _ in range(ctx.scale(12, 400)):
+                lines.append(gen.H("PES", gen.sets(pes_valid(rng, header, fill)) + ["pack", "obs"]))
+    lines.append(gen.H("PES", gen.sets(K2_WITNESS) + ["pack", "obs"]))          # K2: header-less, first byte 0x8_, exact fill
+    for first in range(0, 256, 8):                           # header-less exact fill, every high nibble
+        f = dict(K2_WITNESS); f["pesdata"] = hexb(bytes([first]) + rng.bytes_(177))
+        lines.append(gen.H("PES", gen.sets(f) + ["pack", "obs"]))
+    for w1 in (0x00, 0x40, 0x7F, 0x80, 0x81, 0x8F, 0x90, 0xC0, 0xFF, 256):      # only 0x8_ is recognised on decode
+        f = pes_valid(rng, True, True); f["extension_w1"] = str(w1)
+        lines.append(gen.H("PES", gen.sets(f) + ["pack", "obs"]))
+    for part in ("extension_w1", "extension_w2", "header_data"):                # header present iff all three are set
+        f = pes_valid(rng, True, True); f[part] = "None"
+        lines.append(gen.H("PES", gen.sets(f) + ["pack", "obs"]))
+    f = pes_valid(rng, True, True); f["header_data"] = hexb(rng.bytes_(256))
+    lines.append(gen.H("PES", gen.sets(f) + ["pack", "obs"]))
+    f = pes_valid(rng, False, True); f["streamid"] = "256"
+    lines.append(gen.H("PES", gen.sets(f) + ["pack", "obs"]))
+    for n in range(0, 12):                                   # short payloads: the 3-byte peek needs 9 bytes
+        f = {"sync": "71", "adaption_ctrl": "1", "payload": "x"}
+        b = bytes([0x47, 0x40, 0x11, 0x10]) + (bytes([0, 0, 1, 0xE0, 0, n]) + rng.bytes_(6))[:n]
+        lines.append(gen.H("PES", ["unpack " + hexb(b), "obs"]))
+    return lines
+
+def pes_mutants(rng, b):
+    out = []
+    start = 4 if (b[3] >> 4) & 3 == 1 else 5 + b[4]
+    if start + 9 > len(b):
+        return out
+    for i in range(3):                                       # the 24-bit prefix 000001, every byte at 0/1/other
+        for v in (0, 1, 2, 0x80, 0xFF):
+            m = bytearray(b); m[start + i] = v
+            out.append(bytes(m))
+    real = int.from_bytes(b[start + 4:start + 6], "big")
+    for v in (0, real - 1, real + 1, len(b) - start - 6, 0xFFFF):
+        if 0 <= v <= 0xFFFF:
+            out.append(b[:start + 4] + v.to_bytes(2, "big") + b[start + 6:])
+    for v in (0x00, 0x7F, 0x80, 0x8F, 0x90):
+        m = bytearray(b); m[start + 6] = v
+        out.append(bytes(m))
+    for v in (0, 1, b[start + 8] + 1, 200, 255):
+        m = bytearray(b); m[start + 8] = v
+        out.append(bytes(m))
+    return out
+
+def stanag_lines(ctx):
+    rng = ctx.rng
+    lines = []
+    for header in (False, True):
+        for _ in range(ctx.scale(10, 300)):
+            lines.append(gen.H("STANAG4609", gen.sets(stanag_valid(rng, header)) + ["pack", "obs"]))
+    for t in (0, 1, 2 ** 32, 2 ** 63, 2 ** 64 - 1, 2 ** 64, 1706195279767139):
+        f = stanag_valid(rng); f["time_us"] = str(t)
+        lines.append(gen.H("STANAG4609", gen.sets(f) + ["pack", "obs"]))
+    for k, b in (("stanag_counter", 16), ("_unknown", 8), ("_unknown2", 16)):
+        for v in (0, (1 << b) - 1, 1 << b):
+            f = stanag_valid(rng); f[k] = str(v)
+            lines.append(gen.H("STANAG4609", gen.sets(f) + ["pack", "obs"]))
+    f = stanag_valid(rng); f["adaption_ctrl"] = "1"; f["adaption_field"] = "None"   # not filled: own decoder rejects the checksum
+    lines.append(gen.H("STANAG4609", gen.sets(f) + ["pack", "obs"]))
+    lines.append(gen.H("STANAG4609", ["pack", "obs"]))
+    return lines
+
+def stanag_mutants(rng, b, every_bit=False):
+    """key / tags / length / time / checksum bytes corrupted one at a time; PID changed"""
+    out = []
+    start = 5 + b[4] if (b[3] >> 4) & 3 == 3 else 4
+    hdr = 9 + b[start + 8] if (b[start + 6] >> 4) == 8 else 6
+    d = start + hdr                                          # start of pesdata
+    for i in range(d, min(len(b), d + 36)):
+        for bit in (range(8) if every_bit else (rng.randrange(8),)):
+            m = bytearray(b); m[i] ^= 1 << bit
+            out.append(bytes(m))
+    for pid in (0x103, 0x105, 0x004, 0x1104 & 0x1FFF):
+        m = bytearray(b); m[1] = (m[1] & 0xE0) | (pid >> 8); m[2] = pid & 0xFF
+        out.append(bytes(m))
+    out.append(b + b"\xff")
+    out.append(b[:-1])
+    return out
+
+def corr_C06(ctx):
+    lines = ext_lines(ctx) + af_lines(ctx) + pkt_lines(ctx) + pmt_lines(ctx) + pes_lines(ctx) + stanag_lines(ctx)
+    lines += _decode_side([l for l in lines if "pack" in l])
+    lines += ts_lines(ctx) + pmt_decode_lines(ctx)
+    rng = ctx.rng
+    for _ in range(ctx.scale(6, 100)):
+        for hdr in (False, True):
+            b = _packed("PES", pes_valid(rng, hdr, True))
+            if b:
+                lines += [gen.H("PES", ["unpack " + hexb(m), "obs"]) for m in pes_mutants(rng, b)]
+            b = _packed("STANAG4609", stanag_valid(rng, hdr))
+            if b:
+                lines += [gen.H("STANAG4609", ["unpack " + hexb(m), "obs"]) for m in stanag_mutants(rng, b)]
+    return lines
